@@ -24,6 +24,7 @@ func init() {
 func runC22(c *Ctx) {
 	p := c.P
 	const P = "C22"
+	runBackendIdentity(c, P)
 	c.rule(P, "sync", "committed >= DATA_SYNC ⇒ durability point between the backend write and the acknowledgement on every path (else COMMIT must sync)", 1)
 	c.rule(P, "verf", "writeVerf written only in NewServer from a non-constant; WRITE and COMMIT reply it", 3)
 	ent, err := p.entrySet()
@@ -216,6 +217,7 @@ func runC22(c *Ctx) {
 func runC23(c *Ctx) {
 	p := c.P
 	const P = "C23"
+	runTransferPositive(c, P)
 	c.rule(P, "wt", "a WRITE refusal bound that derives from TransferSize ⇒ FSINFO wtmax/wtpref derive from TransferSize; constant bound ⇒ wtmax <= bound", 2)
 	c.rule(P, "record", "advertised wtmax (constant or clamp) + 928 bytes of call overhead <= 1 MiB record limit", 1)
 	runC23RecordLimit(c)
@@ -450,7 +452,7 @@ func runC25(c *Ctx) {
 					if !ok || !strings.HasSuffix(mi.X.Type().String(), "syscall.Errno") {
 						continue
 					}
-					if k, isC := constInt(mi.X); !isC || k != 27 {
+					if k, isC := constInt(mi.X); !isC || k != eFBIG {
 						continue
 					}
 					for _, f := range p.facts(b) {
